@@ -114,6 +114,36 @@ def run(ctx, pid=PID, check=_life.check_c03, with_up=WITH_UP):
             except Exception as e:
                 ctx.violation(sc, "crash: %s %s" % (type(e).__name__, str(e)[:140]))
     if with_up:
+        # one fixed history per forecaster, stated directly by C10: update_predict leaves the cutoff where it was, the
+        # next predict is labelled from that cutoff, and a second pass over the same data returns the same labels
+        from sktime.forecasting.model_selection import SlidingWindowSplitter as _SWS
+        for entry in entries:
+            if entry.get("exog"):
+                continue
+            ctx.evaluations += 1
+            sc = {"forecaster": entry["name"], "direct": "fit / update_predict / predict / update_predict"}
+            try:
+                fhs = [1, 2]
+                f = entry["factory"]().fit(LC.batch(0, 11, 1, 0, "range"), fh=fhs)
+                ynew = LC.batch(12, 17, 2, 0, "range")
+                up1 = f.update_predict(ynew, cv=_SWS(fh=fhs, window_length=2, step_length=2, start_with_window=True),
+                                       update_params=False)
+                c1 = int(f.cutoff)
+                p = f.predict() if entry["mode"] == "req" else f.predict([1, 3])
+                want = [12, 13] if entry["mode"] == "req" else [12, 14]
+                up2 = f.update_predict(ynew, cv=_SWS(fh=fhs, window_length=2, step_length=2, start_with_window=True),
+                                       update_params=False)
+                if c1 != 11 or int(f.cutoff) != 11:
+                    ctx.violation(sc, "CutoffRestored: update_predict left the cutoff of %s at %s / %s (was 11)" % (entry["name"], c1, f.cutoff))
+                elif [int(i) for i in p.index] != want:
+                    ctx.violation(sc, "PredictIndex: after update_predict the forecast of %s from cutoff 11 is labelled %s" % (entry["name"], list(p.index)))
+                elif [int(i) for i in up1.index] != [int(i) for i in up2.index] or [int(i) for i in up1.index][:2] != [14, 15]:
+                    ctx.violation(sc, "UpdatePredictLabels: first pass of %s labelled %s, second pass over the same data %s"
+                                  % (entry["name"], list(up1.index), list(up2.index)))
+                else:
+                    ctx.nontriv(sc)
+            except Exception as e:
+                ctx.violation(sc, "crash: %s %s" % (type(e).__name__, str(e)[:140]))
         # update_predict with a horizon that reaches into the sample (window forecasters answer those steps by a
         # nested moving-cutoff pass): the forecaster's own cutoff must still be where it was (Inv_CutoffRestored)
         from sktime.forecasting.model_selection import SlidingWindowSplitter
